@@ -31,6 +31,8 @@ func init() {
 			return tree(c, i, cs)
 		case "marker":
 			return markerCase(c, i, cs)
+		case "raw":
+			return rawCase(c, i, cs)
 		}
 		amf0x.Broken("unknown case kind %q", cs.Kind)
 		return rp.Result{}
@@ -56,6 +58,26 @@ func conforms(d amf0x.Decoded, v *amf0x.Node, size int, want []byte, seed int) e
 		return fmt.Errorf("the decoded value does not marshal back to the specification's encoding: %s", rp.FirstDiff(again, want))
 	}
 	return nil
+}
+
+// rawCase: a specification-conformant encoding that no encoder of the library writes (e.g. a boolean byte other
+// than 0 / 1, which the AMF0 specification defines as true) is decoded to the specification's value.
+func rawCase(c *rp.Ctx, i int, cs *amf0x.Case) rp.Result {
+	wire := amf0x.MustLD(cs.Wire, c.Seed)
+	if len(wire) != cs.Size {
+		amf0x.Broken("case %d: wire has %d bytes, size says %d", i, len(wire), cs.Size)
+	}
+	d := amf0x.Decode(wire)
+	if !d.OK {
+		return rp.Fail(i, "decoding a specification-conformant encoding (% x) failed: %v", wire, d.Err)
+	}
+	if d.Size != cs.Size {
+		return rp.Fail(i, "Size() after decoding % x = %d, it has %d bytes", wire, d.Size, cs.Size)
+	}
+	if err := amf0x.Same(&cs.V, d.Value, c.Seed, "v"); err != nil {
+		return rp.Fail(i, "specification-conformant encoding % x decoded to a different value: %v", wire, err)
+	}
+	return rp.Result{OK: true, Nontriv: true}
 }
 
 func tree(c *rp.Ctx, i int, cs *amf0x.Case) rp.Result {
